@@ -12,8 +12,17 @@ CONFIG = {
                   "(unbound < blank < IRI < literal), desc_reverse, lexicographic_keys, respects_lt (every outcome of the "
                   "comparison behind FILTER '<' is kept), order_total_preorder_partial (total preorder on every operand set "
                   "inside one comparison class: term-ordered values / exact numbers / floats+doubles / pairwise comparable "
-                  "dateTimes), bindings_total_preorder (multi-key rows), sorted_perm + sorted_respects_lt for ANY sort meeting "
-                  "the std contract (a permutation, sorted when the comparator is a total preorder on the input). The full "
+                  "dateTimes; order_total_preorder_partial_kinds: also with blank nodes and IRIs next to one class of literals), "
+                  "bindings_total_preorder (multi-key rows), sorted_perm + sorted_respects_lt for ANY sort meeting "
+                  "the std contract (a permutation, sorted when the comparator is a total preorder on the input), and for any key "
+                  "list at sequence level sorted_first_key / sorted_kind_order / sorted_respects_lt_first_key (ASC or DESC) / "
+                  "sorted_later_keys_break_ties. Panic clause: NeverPanics (no comparison of two key values panics) is stated in full; "
+                  "never_panics_iff_flag proves it EQUIVALENT to the regenerated source fact 'naive_to_fixed does not say unreachable!()' "
+                  "(true since fix c9027e0, pinned by datetime_flags_pinned, hence never_panics : NeverPanics for all inputs; a regression "
+                  "of the source flips the flag, fails these obligations and range_end_panic_witness names the panicking inputs), "
+                  "order_by_panics_iff characterises the panicking comparisons exactly, "
+                  "never_panics_partial / bindings_never_panic_partial prove the clause for values 14 h away from the ends of chrono's "
+                  "range; datetime_flags_pinned pins the three dateTime fixes (9f7e0fe, c9027e0). The full "
                   "statement order_total_preorder is REFUTED for the code as written by kernel-checked witnesses "
                   "(order_not_transitive, order_not_transitive_welltyped, numeric_ties_not_transitive): recorded findings; the full "
                   "statement IS proved for a repaired comparator (repaired_total_preorder: class rank first, exact comparison "
@@ -23,30 +32,42 @@ CONFIG = {
     "level_note": "Trusted: transcription of exec.rs/expression.rs/value*.rs and of the third-party parsers/conversions "
                   "(std FromStr, num-bigint, bigdecimal, chrono) into lean/SophiaModel/Model/OrderBy.lean, checked per case by the "
                   "differential; a two-element sort_unstable_by swaps iff is_less(second, first); the sort algorithm itself enters "
-                  "the theorems only through its contract. Model scope: ORDER BY keys are variables; decimals written with a "
-                  "positive exponent next to floats and dateTime years beyond +-262000 are skipped. How XsdDateTime::new treats an "
-                  "i32-overflowing year and which digit class its regex uses is regenerated from the source "
-                  "(tools/extractors/c14.py -> Gen/DateTimeFlags.lean, fail-closed).",
+                  "the theorems only through its contract. Model scope: ORDER BY keys are variables (keys `?k + 0`, BIND(?k * 1 AS ?b), "
+                  "STR(?k) are checked against an oracle computed by the model, not modelled step by step); decimals written with a "
+                  "positive exponent next to floats are skipped; the whole year range of chrono (-262143..262142) is modelled including "
+                  "the checked_sub_offset overflow at its ends. How XsdDateTime::new treats an i32-overflowing year, which digit class "
+                  "its regex uses and whether naive_to_fixed treats an overflow as unreachable!() is regenerated from the source "
+                  "(tools/extractors/c14.py -> Gen/DateTimeFlags.lean, fail-closed on any other shape of heterogeneous_cmp / "
+                  "naive_to_fixed / PartialOrd for XsdDateTime).",
     "tables": ["datetime_flags"],
     "lean_targets": ["SophiaProofs.Props.C14", "SophiaProofs.Audit.C14"],
     "theorems": ["order_not_transitive", "order_not_transitive_welltyped", "numeric_ties_not_transitive",
                  "not_order_total_preorder", "order_total_preorder_partial", "respects_lt", "kind_order", "desc_reverse",
                  "lexicographic_keys", "bindings_total_preorder", "sorted_perm", "sorted_respects_lt", "refSort_contract",
-                 "repaired_total_preorder", "repaired_respects_cmp_partial", "repaired_kind_order"],
+                 "repaired_total_preorder", "repaired_respects_cmp_partial", "repaired_kind_order",
+                 "order_total_preorder_partial_kinds", "sorted_first_key", "sorted_kind_order", "sorted_respects_lt_first_key",
+                 "sorted_later_keys_break_ties", "order_by_panics_iff", "panics_symm", "never_panics_partial",
+                 "bindings_never_panic_partial", "range_end_panic_witness", "never_panics_iff_flag", "datetime_flags_pinned", "never_panics", "bindings_never_panic"],
     "native_ok": [],
     "trivial_re": r"^bad-",
-    "rule": "T requests: n values (class tables from a 270-value table covering every XSD numeric type incl. derived integer "
+    "rule": "T requests: n values (class tables from a 300-value table covering every XSD numeric type incl. derived integer "
             "types, NaN, +-INF, -0.0, 30-digit decimals, values around 2^24/2^53, ill-typed literals, plain/tagged strings, "
-            "booleans, dateTimes with/without timezone, unknown datatypes, IRIs, blank nodes; mixed tables; random triples): "
+            "booleans, dateTimes with/without timezone over the whole range of chrono incl. its first/last day and just beyond, "
+            "unknown datatypes, IRIs, blank nodes, quoted triples; mixed tables; random dateTime tables; random triples): "
             "all n*n ordered pairs observed through two-row SELECT..ORDER BY ASC/DESC queries in a chosen input order (UNION "
             "branches), value probes through ResultTerm::value(), all triples checked for preorder laws, three-row sorts in all 6 "
-            "input orders; K requests: two rows, 1-3 keys, random ASC/DESC flags, unbound cells; S requests: sorts of 21-200 values "
-            "in store order (mixed, homogeneous, cycle-dense) under catch_unwind with permutation / adjacent / sampled-pair checks. "
+            "input orders; K requests: two or three rows, 1-3 keys, random ASC/DESC flags, unbound cells; S requests: sorts of 21-200 values "
+            "in store order (mixed, homogeneous, cycle-dense, dateTime range, and CLEAN ones inside one comparison class where no "
+            "known finding can match) under catch_unwind with permutation / adjacent / sampled-pair checks; M requests: 21-90 rows, "
+            "2-3 keys each inside one comparison class, unbound cells, ASC/DESC, LIMIT/OFFSET (permutation, sortedness, "
+            "reproducibility, slice agrees with the full result up to ties); X requests: one key `?k + 0` / BIND(?k * 1 AS ?b) / "
+            "STR(?k) against the order of the key values computed by the model (errors = unbound first, numbers by value, strings by "
+            "code point). "
             "distinct = distinct request lines; non-trivial = every well-formed request",
     "trusted_base": ["std slice::sort_unstable_by on two elements swaps iff is_less(v[1], v[0]) (observable used to read the comparator)",
                      "UNION evaluates its branches left to right (exec.rs `union` = chain); checked per query by the permutation test",
                      "transcription of std/num-bigint/bigdecimal/chrono parsing and float conversion (differential per value)"],
-    "assumptions": ["ORDER BY keys are variables bound to stored terms (EvalResult::Term)",
+    "assumptions": ["theorems: ORDER BY keys are variables bound to stored terms (EvalResult::Term); computed keys are differential only",
                     "str::cmp (bytewise UTF-8) coincides with code-point order (as in C02)"],
     "exec_timeout": 3000,
 }
@@ -115,8 +136,20 @@ def c14_numeric_promotion_ties(failure):
 @predicate
 def c14_sort_output_misordered(failure):
     """a big sort whose input contains triples of the two known kinds (and no other violation) leaves some pair
-    strictly out of order"""
-    if failure.get("field") not in ("FAIL.unsorted", "FAIL.misordered") or not failure["request"].startswith("S "):
+    strictly out of order, both rows of the reported pair taking part in a triple the model predicts to be violating
+    (`badix`); or std's sort detects the inconsistent comparator itself ("does not correctly implement a total order")"""
+    if failure.get("field") not in ("FAIL.unsorted", "FAIL.misordered", "FAIL.panic_total_order"):
+        return False
+    if not failure["request"].startswith("S "):
         return False
     c = _counts(failure)
-    return bool(c) and c["other"] == 0 and (c["mixed"] + c["numtie"]) > 0
+    if not c or c["other"] != 0 or (c["mixed"] + c["numtie"]) == 0:
+        return False
+    if failure["field"] == "FAIL.panic_total_order":
+        return "total order" in unhex(failure.get("detail", ""))
+    bad = kv(failure["model"]).get("badix", "")
+    m = re.match(r"\d+:(\d+),(\d+)$", failure.get("detail", ""))
+    if not m:
+        return False
+    i, j = int(m.group(1)), int(m.group(2))
+    return i < len(bad) and j < len(bad) and bad[i] == "1" and bad[j] == "1"
